@@ -97,6 +97,30 @@ def p_range_then_len(x, i, j):
     return len(x[i:j])
 
 
+def p_range_then_sum(x, i, j):
+    out = 0.0
+    k = 1.0
+    for y in x[i:j]:
+        if y is not None:
+            out += k * y
+        k += 1.0
+    return out
+
+
+def p_range_then_lens(x, i, j):
+    out = 0
+    k = 1
+    for sub in x[i:j]:
+        if sub is not None:
+            out += k * len(sub)
+        k += 1
+    return out
+
+
+def p_range_range(x, i, j, k, m):
+    return x[i:j][k:m]
+
+
 def p_sum_skipnone(x):
     out = 0.0
     for y in x:
@@ -309,6 +333,9 @@ PROGRAMS = {
     "getitem_range": (p_getitem_range, "S L LL R T LR U", ["r", "r"], None, False),
     "range_then_at": (p_range_then_at, "S L LL R T LR", ["r", "r", "j"], None, False),
     "range_then_len": (p_range_then_len, "S L LL R T LR U", ["r", "r"], None, False),
+    "range_then_sum": (p_range_then_sum, "S", ["r", "r"], None, False),
+    "range_then_lens": (p_range_then_lens, "L LL", ["r", "r"], None, False),
+    "range_range": (p_range_range, "S L LL R T LR U", ["r", "r", "r", "r"], None, False),
     "sum_skipnone": (p_sum_skipnone, "S", [], None, False),
     "count_none": (p_count_none, "S L", [], None, False),
     "contains": (p_contains, "S", ["v"], None, False),
